@@ -808,8 +808,7 @@ def rescale_case(draw):
                 b[i] = [x[0]] + [0.0] * (n - 1)
         if special.endswith("first"):
             a, b = b, a
-    sa = [draw(gen.scalars_pm()) for _ in range(cnt)]
-    sb = [draw(gen.scalars_pm()) for _ in range(cnt)]
+    sa, sb = gen.scale_lists(draw, cnt, cnt)
     t = draw(fl(-3.0, 3.0))
     iso_pt = draw(gen.klein_point(n, rmax=0.9))
     return dict(n=n, shape=shape, a=a, b=b, sa=sa, sb=sb, t=t, iso_pt=iso_pt,
@@ -987,7 +986,7 @@ def polygon_rescale_case(draw):
             th = th0 + 2 * math.pi * (i + draw(fl(-0.3, 0.3))) / k
             verts.append([r * math.cos(th), r * math.sin(th)])
         polys.append(verts)
-        scales.append([draw(gen.scalars_pm()) for _ in range(k)])
+        scales.append(gen.scale_lists(draw, k)[0])
     return dict(k=k, shape=shape, polys=polys, scales=scales)
 
 
@@ -1036,13 +1035,13 @@ def horo_rescale_case(draw):
     n = draw(st.integers(2, 4))
     shape = draw(gen.shapes(max_rank=1))
     cnt = gen.prod(shape)
+    sc, sr = gen.scale_lists(draw, cnt, cnt)
     return dict(n=n, shape=shape,
                 centres=[draw(gen.ideal_direction(n, away_from_inf=0.2)) for _ in range(cnt)],
                 refs=draw(gen.klein_points(n, cnt, rmax=0.95)),
                 normals=[draw(gen.directions(n)) for _ in range(cnt)],
                 offs=[draw(fl(-0.8, 0.8)) for _ in range(cnt)],
-                sc=[draw(gen.scalars_pm()) for _ in range(cnt)],
-                sr=[draw(gen.scalars_pm()) for _ in range(cnt)])
+                sc=sc, sr=sr)
 
 
 def body_horo_rescale(case, ctx):
@@ -1082,10 +1081,13 @@ def body_horo_rescale(case, ctx):
 # ---------------------------------------------------------------------------
 @st.composite
 def boundary_arc_case(draw):
-    a = draw(fl(-math.pi, math.pi))
-    # the second endpoint neither equal nor antipodal to the first (margin 0.05 in the sine)
-    gap = draw(st.one_of(fl(0.06, math.pi - 0.06), fl(-math.pi + 0.06, -0.06)))
-    return dict(a=a, b=a + gap, s=[draw(gen.scalars_pm()), draw(gen.scalars_pm())],
+    a = draw(st.one_of(fl(-math.pi, math.pi), fl(-math.pi, math.pi),
+                       st.sampled_from([0.0, math.pi / 2, -math.pi / 2, math.pi])))
+    # the second endpoint away from the first (margin 0.05 in the sine), or exactly opposite
+    # to it, where the arc from the first counter-clockwise to the second is a half circle
+    gap = draw(st.one_of(fl(0.06, math.pi - 0.06), fl(-math.pi + 0.06, -0.06),
+                         st.sampled_from([math.pi, -math.pi, math.pi / 2])))
+    return dict(a=a, b=a + gap, s=gen.scale_lists(draw, 2)[0],
                 degrees=draw(st.booleans()), model=draw(st.sampled_from(["poincare", "klein"])),
                 ctor=draw(st.sampled_from(["two", "stacked"])))
 
@@ -1095,6 +1097,8 @@ def body_boundary_arc(case, ctx):
     endpoint counter-clockwise to the second) does not depend on the representatives"""
     a, b = case["a"], case["b"]
     e = [np.array([1.0, math.cos(t), math.sin(t)]) for t in (a, b)]
+    if abs(abs(b - a) - math.pi) < 1e-12:
+        ctx.label("antipodal-endpoints")
     ctx.label("negative-factor" if min(case["s"]) < 0 else "",
               "units-scaled-differently" if case["s"][0] != case["s"][1] else "",
               "opposite-signs" if case["s"][0] * case["s"][1] < 0 else "")
